@@ -416,7 +416,7 @@ pub fn run_batch(engine_key: &str, tag: &str, seed: u64, runs: u64, tier: Tier, 
     let stop_at = Arc::new(AtomicU64::new(u64::MAX));
     let hung: Arc<Mutex<Option<u64>>> = Arc::new(Mutex::new(None));
     let stall_limit = Duration::from_secs(
-        std::env::var("GSIM_STALL_S").ok().and_then(|s| s.parse().ok()).unwrap_or(60),
+        std::env::var("GSIM_STALL_S").ok().and_then(|s| s.parse().ok()).unwrap_or(120),
     );
     let mut handles = Vec::new();
     for w in 0..nw {
